@@ -3,6 +3,8 @@ package main
 import (
 	"go/types"
 	"hash/fnv"
+	"sort"
+	"strings"
 )
 
 // funcID: stable non-zero identity of a named function used as a value.
@@ -10,6 +12,140 @@ func funcID(name string) *Term {
 	h := fnv.New32a()
 	h.Write([]byte(name))
 	return IntC(int64(2000000) + int64(h.Sum32()%1000000000))
+}
+
+// mentionsArrayEq: t contains an equality between array-sorted terms one of
+// which is arr (slice identity in a postcondition).
+func mentionsArrayEq(t *Term, arr *Term) bool {
+	if t.Op == "=" && len(t.Args) == 2 && t.Args[0].S.Kind == SArr {
+		if t.Args[0].String() == arr.String() || t.Args[1].String() == arr.String() {
+			return true
+		}
+	}
+	for _, a := range t.Args {
+		if mentionsArrayEq(a, arr) {
+			return true
+		}
+	}
+	return false
+}
+
+// noteWrite records a heap write for the frame check. Writes to objects
+// allocated by the unit itself are invisible to callers and not recorded.
+func (x *Exec) noteWrite(key string, obj *Term) {
+	if obj != nil {
+		for _, a := range x.allocd {
+			if a == obj {
+				return
+			}
+		}
+	}
+	if x.written == nil {
+		x.written = map[string]bool{}
+	}
+	x.written[key] = true
+}
+
+// checkFrame: every heap key the unit writes (directly or through callee
+// contracts) must be declared in its modifies clause. A missing declaration
+// would make the contract unsound at call sites, so it is a unit error.
+func (x *Exec) checkFrame() {
+	if x.c == nil || x.coarse || x.unit.Fn == nil {
+		return
+	}
+	declared := map[string]bool{}
+	all := false
+	for _, mod := range x.c.Modifies {
+		mod = strings.TrimSpace(mod)
+		switch {
+		case mod == "*":
+			all = true
+		case strings.Contains(mod, "@"):
+			if key, ft := x.typedFieldKey(x.c.Pkg, mod[strings.Index(mod, "@")+1:]); ft != nil {
+				declared[key] = true
+			}
+		case strings.HasSuffix(mod, "[*]"):
+		default:
+			i := strings.Index(mod, ".")
+			if i < 0 {
+				continue
+			}
+			if j := strings.LastIndex(mod, ".#"); j >= 0 {
+				declared["ghost:"+mod[j+2:]] = true
+				continue
+			}
+			pname, f := mod[:i], mod[i+1:]
+			if strings.HasPrefix(f, "#") {
+				declared["ghost:"+strings.TrimPrefix(f, "#")] = true
+				continue
+			}
+			if pt := x.paramType(x.c, x.unit.Fn, pname); pt != nil {
+				if ks, ok := x.heapKeyForField(pt, f); ok {
+					for _, k := range ks {
+						declared[k] = true
+					}
+				}
+			}
+		}
+	}
+	if all {
+		return
+	}
+	var missing []string
+	for k := range x.written {
+		if k == "*" {
+			missing = append(missing, "everything (call to a callee without contract or with modifies *)")
+			continue
+		}
+		ok := declared[k]
+		for d := range declared {
+			if strings.HasPrefix(k, d+".") {
+				ok = true
+			}
+		}
+		if !ok {
+			missing = append(missing, k)
+		}
+	}
+	sort.Strings(missing)
+	for _, k := range missing {
+		x.fail(x.unit.Decl.Pos(), "frame: the unit writes %s but its contract does not list it under modifies", trimPkg(k))
+	}
+}
+
+// typedFieldKey resolves "T.f" or "pkg.T.f" (relative to package path from)
+// to the heap key of field f of struct type T and the field's type.
+func (x *Exec) typedFieldKey(from, tf string) (string, types.Type) {
+	i := strings.LastIndex(tf, ".")
+	if i < 0 {
+		return "", nil
+	}
+	tn, fname := tf[:i], tf[i+1:]
+	pkgPath := from
+	if j := strings.LastIndex(tn, "."); j >= 0 {
+		if p := x.eng.importedPkg(from, tn[:j]); p != nil {
+			pkgPath = p.Path()
+		}
+		tn = tn[j+1:]
+	}
+	tp := x.eng.typesPkg(pkgPath)
+	if tp == nil {
+		return "", nil
+	}
+	obj := tp.Scope().Lookup(tn)
+	if obj == nil {
+		return "", nil
+	}
+	su, ok := obj.Type().Underlying().(*types.Struct)
+	if !ok {
+		return "", nil
+	}
+	for k := 0; k < su.NumFields(); k++ {
+		if su.Field(k).Name() == fname {
+			return typeKey(obj.Type()) + "." + fname, su.Field(k).Type()
+		}
+	}
+	return "", nil
 }
 
 // havocObject: every field of the struct that v points to becomes unknown.
